@@ -21,10 +21,11 @@ The rewrite is purely structural (no evaluation); when a precondition is not met
 import copy
 import re
 
-CONSUMER = re.compile(r'^\w+::<(.+) as core::iter::Iterator>::(for_each|try_for_each|all|any|fold|try_fold)::<')
+CONSUMER = re.compile(r'^\w+::<(.+) as core::iter::Iterator>::(for_each|try_for_each|all|any|fold|try_fold|find|find_map|position)::<')
 ADAPTOR = re.compile(r'^\w+::<(.+) as core::iter::Iterator>::(map|filter|filter_map)::<')
-_AD_TY = r'core::iter::(?:adapters::\w+::)?(?:Map|Filter|FilterMap|Zip|Chain)<.+>'
-STRUCT_AD = re.compile(r'^\w+::<(.+) as core::iter::Iterator>::(map|filter|filter_map|zip|chain)::<')
+_AD_TY = r'core::iter::(?:adapters::\w+::)?(?:Map|Filter|FilterMap|Zip|Chain|Enumerate|Copied|Cloned|Inspect|TakeWhile|MapWhile)<.+>'
+STRUCT_AD = re.compile(r'^\w+::<(.+) as core::iter::Iterator>::(map|filter|filter_map|zip|chain|inspect|take_while|map_while)::<')
+SIMPLE_AD = re.compile(r'^\w+::<(.+) as core::iter::Iterator>::(copied|cloned|fuse|enumerate)(::<.*>)?$')
 ANY_INTO_ITER = re.compile(r'^\w+::<(.+) as core::iter::IntoIterator>::into_iter$')
 ITER_TY = re.compile(r'^(core::iter::|soroban_sdk::iter::|soroban_sdk::vec::\w*Iter|core::slice::Iter|core::option::(IntoIter|Iter)<|core::array::IntoIter<|core::ops::Range<)')
 
@@ -467,6 +468,74 @@ class Rewriter:
                 self.add_block(yes, [A({'l': y}, use(mv(ret, [{'v': 1, 'n': 'Some'}, {'f': 0, 'n': '0'}])))], {'t': 'goto', 'to': on_some})
                 self.add_block(unr, [], {'t': 'unreachable'})
                 return istart, y, True
+            if m and len(ct['args']) == 2 and m.group(2) in ('inspect', 'take_while', 'map_while'):
+                kind = m.group(2)
+                inner = op_local(ct['args'][0])
+                if inner is None:
+                    raise Bail('adaptor operand is not a local')
+                sid = self._uniq('g')
+                sd = self.prepare_stage(sid, kind, self.stage_of(ct), at)
+                neutralise.append(cb)
+                pty = sd['param_ty']
+                by_ref = kind in ('inspect', 'take_while')
+                in_ty = pty[1:] if by_ref and pty.startswith('&') else pty
+                got = self._uniq('GOT')
+                ret, ret_ty = sd['ret'], sd['ret_ty']
+                if kind == 'inspect':
+                    istart, x, _ = self.gen_pull(inner, in_ty, got, on_none, at, neutralise, depth + 1)
+                    self.add_block(got, [A({'l': sd['param']}, {'r': 'ref', 'mut': False, 'pl': {'l': x}})], {'t': 'goto', 'to': sd['entry']})
+                    self.add_block('R%s' % sid, [], {'t': 'goto', 'to': on_some})
+                    return istart, x, True
+                # take_while / map_while stop for good at the first rejected element
+                flag = self.newlocal('bool')
+                blocks[cb]['st'] = blocks[cb]['st'] + [A({'l': flag}, use(cbool(False)))]
+                stop = self._uniq('STOP')
+                istart, x, _ = self.gen_pull(inner, in_ty, got, on_none, at, neutralise, depth + 1)
+                self.add_block(start, [], {'t': 'switch', 'd': {'k': 'copy', 'pl': {'l': flag}}, 'dty': 'bool', 'arms': [[0, istart]], 'otherwise': on_none, 'at': at})
+                self.add_block(stop, [A({'l': flag}, use(cbool(True)))], {'t': 'goto', 'to': on_none})
+                if kind == 'take_while':
+                    self.add_block(got, [A({'l': sd['param']}, {'r': 'ref', 'mut': False, 'pl': {'l': x}})], {'t': 'goto', 'to': sd['entry']})
+                    self.add_block('R%s' % sid, [], {'t': 'switch', 'd': mv(ret), 'dty': 'bool', 'arms': [[0, stop]], 'otherwise': on_some, 'at': at})
+                    return start, x, True
+                if not ret_ty.startswith('core::option::Option<'):
+                    raise Bail('map_while closure type')
+                self.add_block(got, [A({'l': sd['param']}, use(mv(x)))], {'t': 'goto', 'to': sd['entry']})
+                d_i = self.newlocal('isize')
+                yes, unr = self._uniq('Y'), self._uniq('UNR')
+                self.add_block('R%s' % sid, [A({'l': d_i}, {'r': 'discr', 'pl': {'l': ret}, 'ty': ret_ty})],
+                               {'t': 'switch', 'd': mv(d_i), 'dty': 'isize', 'arms': [[0, stop], [1, yes]], 'otherwise': unr, 'at': at})
+                y = self.newlocal(ret_ty[len('core::option::Option<'):-1])
+                self.add_block(yes, [A({'l': y}, use(mv(ret, [{'v': 1, 'n': 'Some'}, {'f': 0, 'n': '0'}])))], {'t': 'goto', 'to': on_some})
+                self.add_block(unr, [], {'t': 'unreachable'})
+                return start, y, True
+            ms = SIMPLE_AD.match(cal)
+            if ms and len(ct['args']) == 1:
+                inner = op_local(ct['args'][0])
+                if inner is None:
+                    raise Bail('adaptor operand is not a local')
+                if ms.group(2) in ('copied', 'cloned', 'fuse'):
+                    # the same elements (copies of the referents are the same values in terms)
+                    in_ty = elem_ty if ms.group(2) == 'fuse' else '&' + elem_ty
+                    istart, x, _ = self.gen_pull(inner, in_ty, on_some, on_none, at, neutralise, depth + 1)
+                    neutralise.append(cb)
+                    return istart, x, True
+                # enumerate: a counter that starts at 0 where the adaptor is built and advances by one per element
+                parts = split_tuple(elem_ty)
+                if not parts or len(parts) != 2:
+                    raise Bail('enumerate element type')
+                cnt = self.newlocal('usize')
+                blocks[cb]['st'] = blocks[cb]['st'] + [A({'l': cnt}, use({'k': 'const', 'ty': 'usize', 'v': '0_usize'}))]
+                got = self._uniq('GOT')
+                istart, x, _ = self.gen_pull(inner, parts[1], got, on_none, at, neutralise, depth + 1)
+                i = self.newlocal('usize')
+                tmp = self.newlocal('(usize, bool)')
+                pair = self.newlocal(elem_ty)
+                self.add_block(got, [A({'l': i}, use({'k': 'copy', 'pl': {'l': cnt}})),
+                                     A({'l': tmp}, {'r': 'bin', 'op': 'AddWithOverflow', 'a': {'k': 'copy', 'pl': {'l': cnt}}, 'b': {'k': 'const', 'ty': 'usize', 'v': '1_usize'}}),
+                                     A({'l': cnt}, use(mv(tmp, [{'f': 0, 'n': '0'}]))),
+                                     A({'l': pair}, {'r': 'agg', 'kind': 'tuple', 'ops': [mv(i), mv(x)]})], {'t': 'goto', 'to': on_some})
+                neutralise.append(cb)
+                return istart, pair, True
             if m and len(ct['args']) == 2 and m.group(2) in ('zip', 'chain'):
                 a, b = op_local(ct['args'][0]), op_local(ct['args'][1])
                 if a is None or b is None or len(tys) < 2 or not ITER_TY.match(tys[1]):
@@ -749,7 +818,7 @@ class Rewriter:
         iter_ty = m.group(1)
         if t['to'] < 0:
             raise Bail('diverging consumer')
-        nargs = {'for_each': 2, 'try_for_each': 2, 'all': 2, 'any': 2, 'fold': 3, 'try_fold': 3}[kind]
+        nargs = {'for_each': 2, 'try_for_each': 2, 'all': 2, 'any': 2, 'fold': 3, 'try_fold': 3, 'find': 2, 'find_map': 2, 'position': 2}[kind]
         if len(t['args']) != nargs:
             raise Bail('arity')
         at = t.get('at')
@@ -796,8 +865,8 @@ class Rewriter:
         static = self.static_source(it, tmp) if not stages else None
         if static is not None:
             neutralise.extend(tmp)
-            if kind in ('fold', 'try_fold'):
-                raise Bail('fold over a static source')
+            if kind in ('fold', 'try_fold', 'find', 'find_map', 'position'):
+                raise Bail('fold / find over a static source')
             self.rewrite_static(bi, kind, static, ckey, cl_local, nargs, neutralise)
             return
         # ---- loop skeleton
@@ -824,8 +893,15 @@ class Rewriter:
         cons_st = []
         if acc is not None:
             cons_st.append(A({'l': cL0 + 2}, use(mv(acc))))
-        cons_st.append(A({'l': cL0 + nargs}, use(mv(x))))
+        if kind == 'find':     # the predicate looks at the element, the element itself is the result
+            cons_st.append(A({'l': cL0 + nargs}, {'r': 'ref', 'mut': False, 'pl': {'l': x}}))
+        else:
+            cons_st.append(A({'l': cL0 + nargs}, use(mv(x))))
         self.add_block('CONS', cons_st, {'t': 'goto', 'to': cB0})
+        pos = None
+        if kind == 'position':
+            pos = self.newlocal('usize')
+            self.pre.append(A({'l': pos}, use({'k': 'const', 'ty': 'usize', 'v': '0_usize'})))
         unit = {'k': 'const', 'ty': '()', 'v': '()'}
 
         ret_local = cL0 + 0
@@ -864,6 +940,27 @@ class Rewriter:
         elif kind == 'fold':
             self.add_block('NONE', [A(dest, use(mv(acc)))], {'t': 'goto', 'to': T})
             self.add_block('RET', [A({'l': acc}, use(mv(ret_local)))], {'t': 'goto', 'to': 'H'})
+        elif kind in ('find', 'position', 'find_map'):
+            def opt_(variant, vidx, ops):
+                return {'r': 'agg', 'kind': 'adt', 'adt': 'core::option::Option', 'variant': variant, 'vidx': vidx,
+                        'fields': ['0'] if ops else [], 'is_enum': True, 'ops': ops}
+            self.add_block('NONE', [A(dest, opt_('None', 0, []))], {'t': 'goto', 'to': T})
+            if kind == 'find':
+                self.add_block('RET', [], {'t': 'switch', 'd': mv(ret_local), 'dty': 'bool', 'arms': [[0, 'H']], 'otherwise': 'BRK', 'at': at})
+                self.add_block('BRK', [A(dest, opt_('Some', 1, [mv(x)]))], {'t': 'goto', 'to': T})
+            elif kind == 'position':
+                tmp = self.newlocal('(usize, bool)')
+                self.add_block('RET', [], {'t': 'switch', 'd': mv(ret_local), 'dty': 'bool', 'arms': [[0, 'ADV']], 'otherwise': 'BRK', 'at': at})
+                self.add_block('ADV', [A({'l': tmp}, {'r': 'bin', 'op': 'AddWithOverflow', 'a': {'k': 'copy', 'pl': {'l': pos}}, 'b': {'k': 'const', 'ty': 'usize', 'v': '1_usize'}}),
+                                       A({'l': pos}, use(mv(tmp, [{'f': 0, 'n': '0'}])))], {'t': 'goto', 'to': 'H'})
+                self.add_block('BRK', [A(dest, opt_('Some', 1, [{'k': 'copy', 'pl': {'l': pos}}]))], {'t': 'goto', 'to': T})
+            else:
+                if not ret_ty.startswith('core::option::Option<'):
+                    raise Bail('find_map closure type')
+                l_rd = self.newlocal('isize')
+                self.add_block('RET', [A({'l': l_rd}, {'r': 'discr', 'pl': {'l': ret_local}, 'ty': ret_ty})],
+                               {'t': 'switch', 'd': mv(l_rd), 'dty': 'isize', 'arms': [[0, 'H'], [1, 'BRK']], 'otherwise': 'UNR', 'at': at})
+                self.add_block('BRK', [A(dest, use(mv(ret_local)))], {'t': 'goto', 'to': T})
         else:   # try_fold
             if try_ is None:
                 raise Bail('try_fold on an unknown Try type')
